@@ -13,13 +13,13 @@ T = {
          "Online trace automaton per announced client instance judges every stdout line of the real daemon (ASan/UBSan build) on generated histories with heavy id reuse, re-announcement while live, late/duplicate replies and hook-fired timeouts; held on the histories explored, nothing more.",
          "Trusts the guarded sync pseudo-command for attributing output to input lines; message grammar taken from the daemon's own call sites.", "4/C01"),
  "C02": ("exploration", "runtime trace monitor (one-sided acceptance oracle) over enumerated event orders with hook-fired timeouts",
-         "Every D/R line emitted by the real daemon is judged against the input history (required data, unanswered queries, +! without account, NO replies) over all arrival orders of the data items x service tables x reply scripts, timeout/hurry-up inserted at every position.",
+         "Every D/R line emitted by the real daemon is judged against the input history (required data, unanswered queries, +! without account, NO replies) over all arrival orders of the data items x service tables x reply scripts, timeout/hurry-up inserted at every position; random histories with SIGUSR1 reloads; service tables of 31-40 services; directed reload scripts; real-timer id re-use judged by a one-sided clock oracle.",
          "Required items are read from the policy line the daemon itself prints; timeouts are fired through the guarded hook exactly as the one-shot timer would.", "4/C02"),
  "C03": ("exploration", "runtime trace monitor (bounded-progress oracle evaluated after every step) + stats cross-check",
          "After every input line the monitor checks that no open client satisfies all release conditions without a verdict in that same step; histories weight late/duplicate/unexpected replies, repeated passwords, timeouts; daemon crash counts as everybody stuck.",
          "Bounded form of liveness as the statement itself gives it (same step); generator restricted to unambiguous replies and passwords.", "4/C03"),
  "C04": ("exploration", "differential runtime monitoring: same history with and without stray replies, outputs compared step by step",
-         "Pairs of real-daemon runs that differ only by inserted stray replies/unlinked notices (stale serial, unknown/not-awaited service, malformed tag) must produce identical output; any output in the step of the stray line is a violation.",
+         "Pairs of real-daemon runs that differ only by inserted stray replies/unlinked notices (stale serial, unknown/not-awaited service, malformed or near-miss tag) must produce identical output; any output in the step of the stray line is a violation; directed slot-reuse (reload) and serial-wrap (2^8..2^16 connections) scenarios.",
          "Stray-ness is computed from the awaiting pairs observed in the base run; tags that strtol/strtoul would read as a live tag are not generated.", "4/C04"),
  "C05": ("exploration", "runtime trace monitor on verdict / relay content",
          "Trace rules tie each k/R/D/M/C line of the real daemon to the reply that caused it (text byte-for-byte, account only from awaited login-type services of this instance, class from the reference rule evaluator, +x when hiding was requested).",
@@ -31,7 +31,7 @@ T = {
          "Each client script is run alone, then merged with others in many order-preserving interleavings; the projection of the daemon's output onto each client (serial renumbered) must equal the solo conversation; the guarded audit hook checks the request table's structure.",
          "Replies are addressed symbolically (n-th query to service s) so scripts are interleaving-independent.", "4/C07"),
  "C08": ("exploration", "sanitizers (ASan+UBSan+LSan) + exit-status/hang watchdog + differential (chunking, junk) on hostile byte streams",
-         "Grammar-aware hostile streams, every/sampled prefixes (peer death), read-chunk segmentations via the guarded chunk hook and junk-line insertion; oracle = clean exit, no sanitizer report, no hang, identical treatment of the good lines.",
+         "Grammar-aware hostile streams, every/sampled prefixes (peer death), read-chunk segmentations via the guarded chunk hook, transient read errors injected by an LD_PRELOAD shim, real-timer interruptions and junk-line insertion; oracle = clean exit, no sanitizer report, no hang, identical treatment of the good lines.",
          "A clean sanitizer run is not memory safety (non-adjacent/intra-object overflows are missed); bounded stream sizes.", "4/C08"),
  "C09": ("exploration", "runtime monitor: output grammar + independent address parser on the unhooked channel",
          "Every stdout line from the banner on must match one production of the message grammar; client messages must carry the announced id, an address text that Python's ipaddress reads as the announced value, and the announced port; run with no hook commands and with warning/error-producing events and several logs sections.",
@@ -46,7 +46,7 @@ T = {
          "All 5^8 digit-count patterns of the eight groups x 3 fillings, mapped/compatible shapes, random values, every out_size 1..40, and parser-accepted addresses: print, re-parse with irc_pton and inet_pton, compare values, check fixed point, length and leading character.",
          "glibc inet_pton is the reference; exact-size heap buffers so ASan red zones are adjacent.", "4/C12"),
  "C13": ("exploration", "bit-by-bit reference oracle + sanitizers on enumerated/grammar/mutated strings",
-         "irc_check_mask vs a bit-by-bit oracle on boundary-focused and (thorough) exhaustive per-group differences at every length; grammar-derived mask texts with independently computed (bits, network); all short strings over the address alphabet and mutated seeds in exact-size heap buffers in all four call modes under ASan+UBSan; agreement with inet_pton where both accept.",
+         "irc_check_mask vs a bit-by-bit oracle on boundary-focused and (thorough) exhaustive per-group differences at every length; grammar-derived mask texts with independently computed (bits, network); all short strings over the address alphabet, mutated seeds and libFuzzer-generated strings in exact-size heap buffers in all four call modes under ASan+UBSan; agreement with inet_pton where both accept.",
          "IPv4 masks count from bit 96, as the repository's tests state.", "4/C13"),
  "C14": ("fault_enumeration", "fault enumeration (every truncation point / byte substitution) under sanitizers with before/after dump and hook-log oracle",
          "Valid generated files truncated at every byte and with hostile single-byte substitutions, loaded on top of several prior configurations in a harness linking the unmodified config code: no sanitizer report, termination, and on a reported error an unchanged live-tree dump and an empty hook log.",
@@ -67,7 +67,7 @@ T = {
          "Breadth-first exploration of every reachable splay-tree shape over universes of 1..7 keys applying every operation from every shape; long random sequences per stock comparator including extreme ints; comparator laws; after every operation result vs model, structural audit, cleanup exactly-once accounting.",
          "Harness supplies xmalloc so that only src/set.c is linked.", "4/C19"),
  "C20": ("exploration", "event-log monitor over stub modules loaded by the real daemon, enumerated dependency graphs",
-         "All labelled DAGs on <=4 (quick) / 5 (thorough) stub modules x listing orders, cyclic graphs and missing modules, run through the real `iauthd-c -k`; ordering constraints on constructor/post-init/destructor events and exit status.",
+         "All labelled DAGs on <=4 (quick) / 5 (thorough) stub modules x listing orders, cyclic graphs, missing modules, dependencies declared by module_antidepends, constructor-less modules and graphs of 260-300 modules, run through the real `iauthd-c -k`; ordering constraints on constructor/post-init/destructor events and exit status.",
          "Stub modules are copies of one fixture shared object reading the graph from the environment.", "4/C20"),
 }
 
